@@ -279,12 +279,19 @@ class CallStack(deque):
             if cells.is_cached:
                 graph.add_node(node)
 
+        passed_up = []
         while self.refstack:
             if self.refstack[-1][0] == self.counter:
                 _, ref = self.refstack.pop()
-                cells.model.refgraph.add_edge(ref, node)
+                if cells.is_cached:
+                    cells.model.refgraph.add_edge(ref, node)
+                elif self:
+                    passed_up.append(ref)
             else:
                 break
+
+        for ref in passed_up:   # read in uncached cells: attribute to caller
+            self.refstack.append((self.counter - 1, ref))
 
         return node
 
